@@ -2,13 +2,15 @@ import Vivid.Engine.Util
 import Vivid.Engine.VV
 import Vivid.Engine.Ring
 import Vivid.Engine.Mailbox
+import Vivid.Engine.View
 
 open Vivid.Engine
 
 def engines : List (String × Engine) := [
   ("vv", VVEngine.engine),
   ("ring", RingEngine.engine),
-  ("mailbox", MailboxEngine.engine)
+  ("mailbox", MailboxEngine.engine),
+  ("view", ViewEngine.engine)
 ]
 
 partial def loop (h : IO.FS.Stream) (out : IO.FS.Stream) (e : Engine) (s : e.σ) : IO Unit := do
